@@ -217,6 +217,13 @@ class Summaries:
             return self.concrete_seq(I, it.args[0])
         if it.op == "zip":
             a, b = self.concrete_seq(I, it.args[0]), self.concrete_seq(I, it.args[1])
+            if (a is None) != (b is None):
+                # one side symbolic with a statically known length (an array parameter): its items are index terms
+                sym = it.args[1] if b is None else it.args[0]
+                n = I.length_of(sym)
+                if n is not None and n <= 16:
+                    items = [Tm.index(sym, lit(k)) for k in range(n)]
+                    a, b = (a, items) if b is None else (items, b)
             if a is None or b is None:
                 return None
             return [mk("tuple", x, y) for x, y in zip(a, b)]
@@ -324,6 +331,13 @@ class Summaries:
             return mk("array", a[0])
         if tp == "core::ops::RangeInclusive::<Idx>::new":
             return mk("range_incl", a[0], a[1])
+        if tp in ("core::slice::<impl [T]>::chunks_exact_mut", "core::slice::<impl [T]>::chunks_mut") and ctx.places and ctx.places[0] is not None \
+                and Tm.is_lit(a[1]) and a[1].args[0] > 0:
+            pl = ctx.places[0]
+            w = a[1].args[0]
+            n = I.length_of(a[0], ctx.arg_exprs[0])
+            if n is not None and n % w == 0 and n // w <= 16:
+                return mk("array", *[mk("placeref", pl[0], tuple(pl[1]) + (("r", k * w, (k + 1) * w),)) for k in range(n // w)])
         if tp in ("core::slice::<impl [T]>::chunks", "core::slice::<impl [T]>::chunks_exact"):
             n = I.length_of(a[0], ctx.arg_exprs[0] if ctx.arg_exprs else None)
             if n is not None and Tm.is_lit(a[1]) and a[1].args[0] > 0 and (name == "chunks_exact" or n % a[1].args[0] == 0) and n // a[1].args[0] <= 16:
@@ -358,8 +372,18 @@ class Summaries:
             ctx.write(0, mk("map_insert", a[0], a[1], a[2]))
             return mk("map_insert_old")
         if tp == "core::slice::<impl [T]>::reverse":
-            ctx.write(0, mk("reversed", a[0]))
+            ctx.write(0, a[0].args[0] if a[0].op == "rev" else mk("rev", a[0]))
             return UNIT
+        if tp in ("core::iter::Iterator::cmp",):
+            return mk("lex_cmp", a[0], a[1])
+        if tp in ("core::iter::Iterator::partial_cmp",):
+            return variant("Some", mk("lex_cmp", a[0], a[1]))
+        if tp == "core::iter::Iterator::flat_map":
+            item = mk("item_of", a[0])
+            r = I.apply_fn(a[1], [item], ctx.e, ctx.env, ctx.fr)
+            if r is not None and a[1].op == "closure":
+                return mk("flat_map_t", item, r[0], a[0])
+            return mk("flat_map", a[1], a[0])
         if tp == "core::slice::<impl [T]>::copy_from_slice":
             ctx.write(0, a[1])
             return UNIT
